@@ -28,6 +28,13 @@ RULE = ("fmt-grid: every shipped locale x 7 units x counts (0..130 + plural-clas
         "the shortest reject-then-render histories, and random histories; "
         "default-locale: calls without a locale argument and without any set_locale of their own must equal the same call with locale=get_locale() (oracle only; "
         "its canonical result is independent of the configured locale, so the runner's history passes — after rejected configuration calls, under another configuration — apply). "
+        "instants-native: the reference / an endpoint handed in as a NATIVE value — stdlib aware datetime carrying zoneinfo.ZoneInfo, datetime.timezone(offset) or "
+        "datetime.timezone.utc, stdlib naive datetime, stdlib date — through x.diff_for_humans(native) / x.diff(native) and pendulum.interval(x, y, absolute) with "
+        "(native, native), (pendulum, native), (native, pendulum) endpoints rendered by format_diff and in_words; same zone on one calendar day and across days, "
+        "different zones, fixed offsets, both directions, a deterministic block (~330 items) + 360 random items in quick (5000 in thorough), all for en and 14 per other "
+        "locale; INSIDE the model (Model/DiffHumansNative.v: the values as Interval.__new__ sees them and as Interval.__init__ keeps them, components, invert, phrase and "
+        "words compared per backend) except the pure-Python backend inside the region of finding py-native-endpoint-shift (oracle only there); the oracle demands the "
+        "direction and the documented rounding of the TRUE elapsed time (exact components below 28 days when compared in UTC, within one unit elsewhere). "
         "A case is non-trivial when it is a distinct (function, argument) tuple; model (extracted Coq) and implementation are compared string for string, "
         "and the stdlib oracle re-derives the admissible phrases from the locale files parsed with ast.")
 EXHAUSTIVE = {"quick": False, "thorough": True}
@@ -296,6 +303,91 @@ def _listed_witnesses():
         [[2021, 2, 28, 23, 30, 0], 31 * 86400 + 1800, 3600, 0, 0, "UTC"], [[2014, 9, 15, 23, 0, 59], 86400, "UTC", 0, 1, -900],
     ]
 
+# ----------------------------------------------------------------------------- operands handed in as NATIVE values
+# item = [utc fields of the instance, span, zone, swap, absolute, zone2, kind, route, iv_abs]
+#   kind   "aware"  the two values are aware datetimes in zone / zone2;  "naive"  naive datetimes (the UTC fields are their wall clock);
+#          "date"   the dates of those naive datetimes
+#   route  "dfh"    x.diff_for_humans(y_native) and x.diff(y_native): x a pendulum value, y a stdlib one
+#          "iv-nn" / "iv-pn" / "iv-np"   pendulum.interval(x, y, absolute=iv_abs) with (native, native) / (pendulum, native) / (native, pendulum)
+#          endpoints, rendered by pendulum.format_diff(interval, False, absolute, locale) and interval.in_words(locale)
+#   A native aware value carries zoneinfo.ZoneInfo(zone) (one object per key), datetime.timezone(timedelta(seconds=zone)) for a fixed offset,
+#   and for "UTC" alternately ZoneInfo("UTC") and datetime.timezone.utc.
+NATIVE_ROUTES = ["dfh", "iv-nn", "iv-pn", "iv-np"]
+NATIVE_ZONES = ["UTC", "Europe/Paris", "America/New_York", "Asia/Tokyo", "Asia/Kolkata", "America/St_Johns", "Australia/Lord_Howe", "Pacific/Kiritimati",
+                19800, 3600, -12600, -34200, 50400, -900]
+
+
+def _native_items(tier, rnd):
+    det = []
+    # same zone, same calendar day / next day; different zones; every route; both directions; fixed offsets and tz-database zones
+    k = 0
+    for z, z2 in (("Europe/Paris", "Europe/Paris"), ("Asia/Tokyo", "America/New_York"), (19800, 3600), ("America/New_York", "America/New_York"),
+                  ("UTC", "Asia/Kolkata"), (-12600, -12600), ("Australia/Lord_Howe", "UTC"), ("UTC", "UTC"), ("Pacific/Kiritimati", -34200)):
+        for st in ([2024, 5, 10, 10, 0, 0], [2024, 1, 15, 4, 30, 0], [2021, 7, 1, 13, 5, 9]):
+            for span in (0, 7, 45, 2700, 10800, 18060, 90000, 3 * 86400 + 5, 40 * 86400):
+                route = NATIVE_ROUTES[k % 4]
+                swap = (k // 4) % 2
+                det.append([st, span, z, swap, int(k % 5 == 0), z2, "aware", route, 1 if (swap or route == "dfh") else (k // 8) % 2])
+                k += 1
+    for st in ([2020, 1, 31, 10, 0, 0], [2019, 12, 31, 23, 59, 59], [2024, 2, 29, 6, 0, 0]):
+        for span in (0, 5, 61, 10800, 86400, 5 * 86400, 35 * 86400, 400 * 86400):
+            for route in ("iv-nn", "dfh"):
+                for kind in ("naive", "date"):
+                    swap = k % 2
+                    det.append([st, span, "UTC", swap, int(k % 3 == 0), "UTC", kind, route, 1 if (swap or route == "dfh") else (k // 2) % 2])
+                    k += 1
+    # inside / next to a repeated hour with the reference native (finding same-tzinfo-wall-order: __new__ orders by instant, __init__ by wall clock)
+    det += [[[2012, 10, 28, 0, 45, 0], 1807, "Europe/Paris", 0, 0, "Europe/Paris", "aware", "dfh", 1],
+            [[2012, 10, 28, 0, 45, 0], 1807, "Europe/Paris", 1, 0, "Europe/Paris", "aware", "iv-pn", 1],
+            [[2012, 10, 28, 0, 45, 0], 1807, "Europe/Paris", 0, 0, "Europe/Paris", "aware", "iv-nn", 0],
+            [[2012, 10, 28, 0, 30, 0], 3600, "UTC", 0, 0, "Europe/Paris", "aware", "dfh", 1],
+            [[2012, 10, 28, 0, 30, 0], 3600, "UTC", 0, 0, "Europe/Paris", "aware", "iv-nn", 0],
+            # a naive pendulum value against a naive native one (finding native-naive-operand)
+            [[2020, 1, 1, 10, 0, 0], 10800, "UTC", 0, 0, "UTC", "naive", "iv-pn", 0], [[2020, 1, 1, 10, 0, 0], 10800, "UTC", 1, 1, "UTC", "naive", "iv-np", 1]]
+    rand = []
+    for _ in range(360 if tier == "quick" else 5000):
+        st = [rnd.randrange(1930, 2080), rnd.randrange(1, 13), rnd.choice([1, 2, 15, 27, 28, rnd.randrange(1, 29)]), rnd.choice([0, 1, 5, 12, 22, 23, rnd.randrange(24)]),
+              rnd.choice([0, 1, 29, 30, 31, 59, rnd.randrange(60)]), rnd.choice([0, 1, 30, 59, rnd.randrange(60)])]
+        span = rnd.choice([1, 9, 10, 11, 59, 60, 61, 3599, 3600, 3601, 7200, 10800, 18060, 86399, 86400, 86401, rnd.randrange(0, 4000), rnd.randrange(0, 90000),
+                           rnd.randrange(0, 90000), rnd.randrange(0, 28 * 86400), rnd.randrange(0, 400 * 86400), rnd.randrange(0, 5000 * 86400)])
+        x = rnd.random()
+        kind = "aware" if x < 0.8 else ("naive" if x < 0.9 else "date")
+        z1 = rnd.choice(NATIVE_ZONES)
+        z2 = z1 if rnd.random() < 0.4 else rnd.choice(NATIVE_ZONES)
+        if kind != "aware":
+            z1 = z2 = "UTC"
+        route = rnd.choice(NATIVE_ROUTES if kind == "aware" else ["dfh", "iv-nn", "iv-nn", "iv-pn"])
+        if kind == "date" and route == "iv-pn":
+            route = "iv-np"
+        swap = rnd.choice([0, 1])
+        rand.append([st, span, z1, swap, rnd.choice([0, 0, 1]), z2, kind, route, 1 if (swap or route == "dfh") else rnd.choice([0, 1])])
+    return det, rand
+
+
+def _native_cases(tier, seed, rnd, locs):
+    det, rand = _native_items(tier, rnd)
+    out = []
+    for li, loc in enumerate(locs):
+        if loc == "en":
+            mine = det + rand
+        else:
+            mine = [det[(li * 53 + k * 17) % len(det)] for k in range(6)] + rnd.sample(rand, 8 if tier == "quick" else 200)
+        for chunk in _chunks_by(mine, 60, _native_region):
+            out.append({"stream": "instants-native", "fn": "natives", "args": [li, loc, chunk]})
+    return out
+
+
+def _chunks_by(items, size, region):
+    groups = {}
+    for it in items:
+        groups.setdefault(region(it) or "", []).append(it)
+    out = []
+    for g in sorted(groups):
+        n = size if g == "" else 1
+        for k in range(0, len(groups[g]), n):
+            out.append(groups[g][k:k + n])
+    return out
+
 
 def cases(tier, seed):
     rnd = random.Random(seed)
@@ -393,11 +485,13 @@ def cases(tier, seed):
     # 8. the process-wide default locale: whole histories in one case, and calls that rely on the ambient configuration
     out += _default_locale_cases(tier, seed, rnd)
     out += _sessions(tier, seed, rnd, locs)
+    # 9. operands handed in as native values (own generator: the streams above are unchanged by it)
+    out += _native_cases(tier, seed, random.Random(seed * 7919 + 18), locs)
     return out
 
 
 def search_cases(seed):
-    return [c for c in cases("thorough", seed) if c["fn"] in ("fmt_grid", "fmt_batch", "tokens", "words_batch", "classes", "session", "default_locale")]
+    return [c for c in cases("thorough", seed) if c["fn"] in ("fmt_grid", "fmt_batch", "tokens", "words_batch", "classes", "session", "default_locale", "natives")]
 
 
 def nontrivial(c):
@@ -505,6 +599,12 @@ def impl_run(cases):
                                 [y.year, y.month, y.day, y.hour, y.minute, y.second, int(y.utcoffset().total_seconds()), y.fold],
                                 guard(lambda: d.in_words(locale=loc)), guard(lambda: Interval.in_words(D(cs, 0, d.microseconds), loc))])
                 out.append(res)
+            elif fn == "natives":
+                li, loc, items = a
+                res = [0]
+                for it in items:
+                    res.append(_natives_impl(pendulum, Interval, D, guard, comps, loc, it))
+                out.append(res)
             elif fn == "durations":
                 li, loc, durs = a
                 res = [0]
@@ -608,6 +708,141 @@ def impl_run(cases):
             out.append([1, type(e).__name__, str(e)[:200]])
     return out
 
+_STD_TZ = {}
+
+
+def _native_tz(z, alt=0):
+    """the tzinfo of a NATIVE value: one object per zone (zoneinfo caches by key; fixed offsets are cached here); "UTC" with alt=1 is datetime.timezone.utc"""
+    import datetime
+    if z == "UTC" and alt:
+        return datetime.timezone.utc
+    if z not in _STD_TZ:
+        _STD_TZ[z] = _std_tz(z)
+    return _STD_TZ[z]
+
+
+def _native_alt(it):
+    return (it[1] + it[0][5]) % 2
+
+
+def _natives_impl(pendulum, Interval, D, guard, comps, loc, it):
+    """runs inside the staged interpreter"""
+    import datetime
+    st, span, zone, swap, ab, zone2, kind, route, iv_abs = it
+    alt = _native_alt(it)
+    u = datetime.datetime(*st, tzinfo=datetime.timezone.utc)
+    v = u + datetime.timedelta(seconds=span)
+    if kind == "aware":
+        nat = [u.astimezone(_native_tz(zone, alt)), v.astimezone(_native_tz(zone2, 1 - alt))]
+        pen = [pendulum.datetime(*st, tz="UTC").in_timezone(pendulum.timezone(zone)),
+               pendulum.datetime(*st, tz="UTC").add(seconds=span).in_timezone(pendulum.timezone(zone2))]
+    elif kind == "naive":
+        nat = [u.replace(tzinfo=None), v.replace(tzinfo=None)]
+        pen = [pendulum.naive(*st), pendulum.naive(*st).add(seconds=span)]
+    else:
+        nat = [u.date(), v.date()]
+        pen = [pendulum.date(u.year, u.month, u.day), pendulum.date(v.year, v.month, v.day)]
+    if swap:
+        nat.reverse()
+        pen.reverse()
+    x, y = {"dfh": (pen[0], nat[1]), "iv-nn": (nat[0], nat[1]), "iv-pn": (pen[0], nat[1]), "iv-np": (nat[0], pen[1])}[route]
+
+    def view(o):
+        if kind == "date":
+            return [o.year, o.month, o.day, 0, 0, 0, 0, 0, type(o).__module__.split(".")[0]]
+        off = o.utcoffset()
+        return [o.year, o.month, o.day, o.hour, o.minute, o.second, -1 if off is None else int(off.total_seconds()), o.fold, type(o).__module__.split(".")[0]]
+    try:
+        if route == "dfh":
+            d = x.diff(y)
+            phrase = guard(lambda: x.diff_for_humans(y, absolute=bool(ab), locale=loc))
+        else:
+            d = pendulum.interval(x, y, absolute=bool(iv_abs))
+            phrase = guard(lambda: pendulum.format_diff(d, False, bool(ab), loc))
+    except Exception as e:  # noqa
+        return ["!" + type(e).__name__, view(x), view(y)]
+    cs = comps(d)
+    return [phrase, guard(lambda: pendulum.format_diff(D(cs, d.invert), False, bool(ab), loc)), cs, int(d.invert), view(x), view(y),
+            guard(lambda: d.in_words(locale=loc)), guard(lambda: Interval.in_words(D(cs, 0, d.microseconds), loc)), d.microseconds,
+            [type(d.start).__module__.split(".")[0], type(d.end).__module__.split(".")[0]]]
+
+
+def _native_operands(it):
+    """(x, y) of one `natives` item, stdlib only: dicts as in _operands plus "kind", "native" (handed in as a stdlib value) and "name" (what
+    pendulum.instance gives the value: the zone name, +HH:MM for a fixed offset, UTC for a naive one)"""
+    import datetime
+    st, span, zone, swap, ab, zone2, kind, route, iv_abs = it
+    if kind == "aware":
+        ops = _operands([st, span, zone, 0, ab, zone2])
+        for o in ops:
+            o["name"] = _tz_name(o["zone"])
+            o["aware"] = True
+    else:
+        u = datetime.datetime(*st)
+        ops = []
+        for t in (u, u + datetime.timedelta(seconds=span)):
+            f = [t.year, t.month, t.day, t.hour, t.minute, t.second] if kind == "naive" else [t.year, t.month, t.day, 0, 0, 0]
+            ops.append({"f": f, "off": 0, "fold": 0, "off0": 0, "zone": "UTC", "name": "UTC", "aware": False,
+                        "t": int((datetime.datetime(*f) - datetime.datetime(1970, 1, 1)).total_seconds())})
+    if swap:
+        ops.reverse()
+    nx, ny = {"dfh": (0, 1), "iv-nn": (1, 1), "iv-pn": (0, 1), "iv-np": (1, 0)}[route]
+    for o, n in zip(ops, (nx, ny)):
+        o["kind"] = kind
+        o["native"] = bool(n) and not (kind == "date" and route == "dfh")       # Date.diff rebuilds its argument as a pendulum Date
+        if kind == "naive":
+            o["aware"] = o["native"]          # pendulum.instance(naive native) is a UTC value; a naive pendulum value stays naive
+    return ops
+
+
+def _enc_native_operand(o):
+    """12 integers of the value Interval.__init__ keeps + (has_tz, tzinfo object id) of the value as given"""
+    if o["kind"] == "date":
+        return o["f"][:3] + [0, 0, 0, 0, 0, 0, 0, 0, 0] + [0, 0]
+    if not o["aware"]:
+        return o["f"] + [0, 0, 0, 0, 0, 1] + [0, 0]
+    n = _name_id(o["name"])
+    given = [1, n + 10 ** 9 + 7] if o["kind"] == "aware" else [0, 0]
+    if not o["native"]:
+        given = [1, n]
+    return o["f"] + [0, o["off"], 1, n, n, 1] + given
+
+
+def _native_region(it, backend=None):
+    """the listed finding (or None) whose region contains this item — predicates on the INPUT:
+       native-naive-operand     a naive pendulum DateTime and a naive NATIVE datetime in one Interval (pendulum.instance makes the native one aware);
+       same-tzinfo-wall-order / rs-cross-zone-shift   as for pendulum operands (_region), on the values Interval.__init__ keeps."""
+    st, span, zone, swap, ab, zone2, kind, route, iv_abs = it
+    if kind == "naive":
+        return "native-naive-operand" if route in ("dfh", "iv-pn", "iv-np") else None
+    if kind == "date":
+        return None
+    x, y = _native_operands(it)
+    if x["name"] == y["name"] and ((x["f"] > y["f"]) != (x["t"] > y["t"]) or (x["f"] == y["f"]) != (x["t"] == y["t"])):
+        return "same-tzinfo-wall-order"
+    if backend in (None, "rs") and _rs_shift_irregular(x, y):
+        return "rs-cross-zone-shift"
+    if backend in (None, "py") and _py_native_shift_irregular(x, y):
+        return "py-native-endpoint-shift"
+    return None
+
+
+def _py_native_shift_irregular(x, y):
+    """Region of listed finding py-native-endpoint-shift, a predicate on the two operands (pure-Python backend only): an endpoint handed in as a
+    native aware datetime reaches precise_diff as pendulum.instance(x) — a pendulum.DateTime, not a plain datetime — so the helper's UTC
+    normalisation `d = d - d.utcoffset()` (taken when the zone names differ or both values fall on one local date) is pendulum's TIMELINE
+    arithmetic: the wall clock of the instant `offset` earlier, not the wall clock moved by `offset`.  The two differ exactly when the zone's
+    UTC offset at that earlier instant is not the endpoint's own offset (a transition lies in between)."""
+    import datetime
+    if x["name"] == y["name"] and x["f"][:3] != y["f"][:3]:
+        return False
+    for o in (x, y):
+        if o["kind"] == "aware" and o["native"] and o["off"] != 0:
+            t2 = datetime.datetime(1970, 1, 1, tzinfo=datetime.timezone.utc) + datetime.timedelta(seconds=o["t"] - o["off"])
+            if int(t2.astimezone(_std_tz(o["zone"])).utcoffset().total_seconds()) != o["off"]:
+                return True
+    return False
+
 
 def _token_points():
     pts = []
@@ -671,6 +906,15 @@ def model_calls(c, backend):
             x, y = _operands(it)
             ab = _enc_operand(x) + _enc_operand(y)
             calls += [("diff_comps", [rs] + ab), ("dfh", [li, rs, it[4]] + ab)]
+        return calls
+    if fn == "natives":
+        li, loc, items = a
+        rs = int(backend == "rs")
+        calls = []
+        for it in items:
+            x, y = _native_operands(it)
+            ab = _enc_native_operand(x) + _enc_native_operand(y)
+            calls += [("diff_comps_native", [rs, it[8]] + ab), ("format_diff_native", [li, rs, it[8], it[4]] + ab), ("in_words_native", [li, rs, it[8]] + ab)]
         return calls
     return None
 
@@ -771,6 +1015,18 @@ def model_result(c, backend, outs):
             else:
                 r.append([_dec(p_), c_[1:8], c_[8]])
         return r
+    if fn == "natives":
+        r = [0]
+        for i in range(0, len(outs), 3):
+            c_, p_, w_ = outs[i:i + 3]
+            if [3] in (c_, p_, w_) or (backend == "py" and _py_native_shift_irregular(*_native_operands(c["args"][2][i // 3]))):
+                # (the second: finding py-native-endpoint-shift — pendulum's timeline arithmetic inside the pure-Python helper is outside the model)
+                r.append(None)
+            elif c_[0] != 0:
+                r.append(["!" + EXN.get(c_[1], f"exn{c_[1]}")])
+            else:
+                r.append([_dec(p_), c_[1:8], c_[8], _dec(w_)])
+        return r
     if fn == "session":
         r, k = [0], 0
         for op in c["args"][0]:
@@ -803,6 +1059,10 @@ def same(c, m, r):
     if c["fn"] == "instants":
         # model: [phrase, components, invert] of DateTime.diff_for_humans(other) / DateTime.diff(other); None = outside the model's domain
         return len(m) == len(r) and all(x is None or (i == 0 and x == y) or (i > 0 and x == [y[0], y[2], y[3]]) for i, (x, y) in enumerate(zip(m, r)))
+    if c["fn"] == "natives":
+        # model: [phrase, components, invert, words] or ["!Exc"]; None = outside the model's domain
+        return len(m) == len(r) and all(x is None or (i == 0 and x == y) or (i > 0 and (x == [y[0]] if len(x) == 1 or len(y) < 7 else x == [y[0], y[2], y[3], y[6]]))
+                                        for i, (x, y) in enumerate(zip(m, r)))
     return m == r
 
 
@@ -1062,6 +1322,20 @@ def _failures(c, r, backend=None):
                     if reg != "-":
                         cls = reg
                 f.append((cls, f"{loc} {it}: {why}"))
+    elif fn == "natives":
+        li, loc, items = a
+        for it, res in zip(items, r[1:]):
+            reg = None
+            for part, why in _check_natives(loc, it, res):
+                cls = None
+                if part == "dt":
+                    reg = reg or _native_region(it, backend or "py") or "-"
+                    if reg == "native-naive-operand":
+                        # the finding is the TypeError of the mixed naive pair and nothing else
+                        cls = reg if why == "raised TypeError" else None
+                    elif reg != "-":
+                        cls = reg
+                f.append((cls, f"{loc} {it}: {why}"))
     elif fn == "durations":
         li, loc, durs = a
         for du, res in zip(durs, r[1:]):
@@ -1248,6 +1522,96 @@ def _check_instants(loc, it, res):
         out.append(("words", "Interval.in_words: " + why))
     return out
 
+def _check_natives(loc, it, res):
+    """list of (part, reason) for one item of the instants-native stream: direction + documented rounding of the TRUE elapsed time, whatever
+    the concrete type of the operands; "dt" = the part the listed findings are about"""
+    import datetime
+    st, span, zone, swap, ab, zone2, kind, route, iv_abs = it
+    X, Y = _native_operands(it)
+    out = []
+
+    def views(xv, yv):
+        for nm, got, op in (("first", xv, X), ("second", yv, Y)):
+            want_mod = "datetime" if (op["native"] or (kind == "date" and route == "dfh" and nm == "second")) else "pendulum"
+            if kind == "date":
+                ok = got[:3] == op["f"][:3]
+            else:
+                ok = got[:6] == op["f"] and got[6] == (op["off"] if kind == "aware" else -1) and (op["off"] == op["off0"] or got[7] == op["fold"])
+            if not ok or got[8] != want_mod:
+                out.append(("operands", f"harness: the {nm} operand is {got}, expected {op['f']} offset {op['off']} fold {op['fold']} from {want_mod}"))
+    if len(res) == 3:
+        views(res[1], res[2])
+        out.append(("dt", f"raised {res[0][1:]}"))
+        return out
+    s_dt, s_fd, cs, inv, xv, yv, s_words, s_words_duck, us, ends = res
+    views(xv, yv)
+    if ends != ["pendulum", "pendulum"]:
+        out.append(("dt", f"the interval's start/end are {ends} values, not pendulum ones"))
+    if us != 0:
+        out.append(("dt", f"microseconds {us} for whole-second operands"))
+    true_span = abs((datetime.date(*Y["f"][:3]) - datetime.date(*X["f"][:3])).days) * 86400 if kind == "date" else span
+    x_later = (X["f"][:3] > Y["f"][:3]) if kind == "date" else (bool(swap) and span > 0)
+    if bool(inv) != x_later:
+        out.append(("dt", f"invert={inv} but the first value is {'later' if x_later else 'not later'} than the second"))
+    if s_dt != s_fd:
+        out.append(("dt", f"the phrase {s_dt!r} differs from format_diff on the difference's own components {s_fd!r}"))
+    if s_words != s_words_duck:
+        out.append(("words", f"Interval.in_words {s_words!r} differs from in_words on its own components {s_words_duck!r}"))
+    if x_later and not iv_abs:
+        # a non-absolute interval that runs backwards: negative components, outside the domain of differences — totality only
+        for nm, s_ in (("format_diff", s_dt), ("in_words", s_words)):
+            if s_.startswith("!") or not s_ or "{" in s_:
+                out.append(("dt", f"{nm} on a backward interval: {s_!r}"))
+        want = [-c for c in _elapsed_comps(true_span)]
+        if true_span < 28 * 86400 and kind != "date" and (X["name"] != Y["name"] or X["f"][:3] == Y["f"][:3] or X["off"] == Y["off"]) and cs != want:
+            out.append(("dt", f"components {cs} of the backward interval are not minus the elapsed time {want} ({true_span} s)"))
+        return out
+    why = _check_phrase(loc, cs, int(x_later), 0, ab, s_dt)
+    if why:
+        out.append(("dt", "phrase: " + why))
+    why = _check_words(loc, cs + [0], " ", s_words) if any(cs) else (None if s_words and not s_words.startswith("!") and "{" not in s_words else f"bad {s_words!r}")
+    if why:
+        out.append(("words", "Interval.in_words: " + why))
+    cross = X["name"] != Y["name"]
+    # magnitude: differences computed in UTC (different zones, one local date, equal offsets, dates) below 28 days have no calendar part:
+    # the components ARE the elapsed time and the phrase is its documented rounding
+    if true_span < 28 * 86400 and (kind == "date" or cross or X["f"][:3] == Y["f"][:3] or X["off"] == Y["off"]):
+        true = _elapsed_comps(true_span)
+        if cs != true:
+            out.append(("dt", f"components {cs} of the difference are not the elapsed time {true} ({true_span} s)"))
+        why = _check_phrase(loc, true, int(x_later), 0, ab, s_dt)
+        if why:
+            out.append(("dt", f"phrase for {true_span} s elapsed: " + why))
+        if any(true):
+            why = _check_words(loc, true + [0], " ", s_words)
+            if why:
+                out.append(("dt", f"in_words for {true_span} s elapsed: " + why))
+    unit, count = _expected(cs)
+    length = {"second": 1, "minute": 60, "hour": 3600, "day": 86400, "week": 7 * 86400}
+    if unit == "few":
+        if not true_span <= 10:
+            out.append(("dt", f"'a few seconds' for {true_span} s"))
+    elif unit in length:
+        if not abs(count * length[unit] - true_span) < length[unit] + (3600 if unit in ("day", "week") and kind == "aware" and not cross and X["off"] != Y["off"] else 0):
+            out.append(("dt", f"{count} {unit}(s) is not within one {unit} of {true_span} s"))
+    else:
+        if cross:
+            a_ = datetime.datetime(*X["f"]) - datetime.timedelta(seconds=X["off"])
+            b_ = datetime.datetime(*Y["f"]) - datetime.timedelta(seconds=Y["off"])
+        else:
+            a_, b_ = datetime.datetime(*X["f"]), datetime.datetime(*Y["f"])
+        lo, hi = min(a_, b_), max(a_, b_)
+        k = 12 if unit == "year" else 1
+        lo_b, hi_b = _add_months(lo, (count - 1) * k), _add_months(lo, (count + 1) * k)
+        if lo_b is not None and hi_b is not None and not (lo_b - datetime.timedelta(hours=2) <= hi <= hi_b + datetime.timedelta(hours=2)):
+            out.append(("dt", f"{count} {unit}(s) is not within one {unit} of {lo} .. {hi}"))
+    return out
+
+
+def _elapsed_comps(span):
+    dd = span // 86400
+    return [0, 0, dd // 7, dd % 7, span // 3600 % 24, span // 60 % 60, span % 60]
+
 
 def _check_duration(loc, du, res):
     import datetime
@@ -1344,3 +1708,33 @@ _MIC2 = ("model_is_code_in_words_duration / _in_words_interval / in_words_interv
          "key construction (Model/DiffFormat.v format; its unit chain is Gen.Locales.gen_pick), Locale.get / translation, Formatter.format's locale default and tokens")
 TRUSTED = [t for t in TRUSTED] + [_MIC2]
 LEVEL_NOTE = LEVEL_NOTE + " " + _MIC2 + "."
+
+
+# ---- model = code theorems for Locale.get / Locale.translation (appended) ----
+_MIC3 = ("model_is_code_locale_get / _locale_translation / locale_key_cache_transparent / locale_key_cache_starts_ok / in_words_translation_is_code / "
+         "ordinalize_get_is_code (this supersedes the 'NOT translated' remarks about Locale.get / translation above): Locale.get and Locale.translation are "
+         "now translated from /repo on every run (Gen/HumanizeGlue.v): key.split('.'), the walk self._data[parts[0]][part]..., `except KeyError: result = default` "
+         "(a match on the exception kind of the result monad; TypeError from subscripting a str / int / function propagates), and the per-object memo "
+         "self._key_cache threaded as explicit state. Proved: for the key 'p1.p2...pn' of a non-empty path of dot-free components, get = LocaleBase.lookup on "
+         "[p1; ...; pn] and translation = lookup on 'translations' :: path, for every memo satisfying kc_ok (every entry is what a fresh call returns; holds of the "
+         "empty memo, preserved); for ANY key the value returned does not depend on the memo (transparency is a theorem, not an assumption). The hand primitives "
+         "loc_translation / loc_get_custom_ordinal that the in_words and ordinalize theorems are stated over are proved to BE these translations on every key "
+         "those functions build on a shipped locale (all unit names and all plural / ordinal classes of all 27 locales are dot-free: computed in Coq). "
+         "Scope: get's default argument is None (no caller in pendulum passes another one; with a non-None default the memo would remember the default of the "
+         "FIRST call — not modelled). By hand: str.split on one character (psplit), d[k] on the generated node tree (node_getitem; int keys never equal a str), "
+         "the association-list memo, the left-fold template of the for loop over its translated body")
+TRUSTED = [t for t in TRUSTED] + [_MIC3]
+LEVEL_NOTE = LEVEL_NOTE + " " + _MIC3 + "."
+
+
+# ---- operands handed in as native values (appended) ----
+_NATIVE = ("Stream instants-native / Model/DiffHumansNative.v (hand model, compared output by output with both backends): Interval on operands given as stdlib values — "
+           "__new__ on the values as given, __init__ on pendulum.instance of them (datetime-subclass instances handed to precise_diff as they are; the C06 models of "
+           "precise_diff treat a subclass instance as a datetime in get_tz_name / get_offset / field extraction). Props/C18.v: native_operand_transparent, "
+           "native_aware_operand_transparent (the result does not depend on how the operand was handed in when both views order the pair alike), "
+           "native_reference_three_hours (both backends), native_operand_transparent_refuted (repeated hour: finding same-tzinfo-wall-order), native_total_refuted / "
+           "native_total_partial / native_raises_only_for_mixed_kinds (finding native-naive-operand), format_diff_native_total, native_direction_is_init_order. "
+           "Oracle only: the pure-Python backend inside the region of finding py-native-endpoint-shift (pendulum's timeline arithmetic inside the helper's UTC normalisation "
+           "is not modelled; the harness computes the region with zoneinfo); the tzinfo objects of native values are built by the harness, one per zone")
+TRUSTED = [t for t in TRUSTED] + [_NATIVE]
+LEVEL_NOTE = LEVEL_NOTE + " " + _NATIVE + "."
